@@ -1752,3 +1752,9 @@ func mustPassAvoidingFrom(fn *ssa.Function, from *ssa.BasicBlock, to ssa.Instruc
 	}
 	return visit(from, true)
 }
+
+// domSame: a dominates b, both being blocks of one function (facts lifted from a caller or out of a helper carry
+// branch instructions of other functions; dominance between blocks of different functions means nothing).
+func domSame(a, b *ssa.BasicBlock) bool {
+	return a != nil && b != nil && a.Parent() == b.Parent() && a.Dominates(b)
+}
